@@ -50,6 +50,7 @@ structure ApiCall where
   sawValid : List Nat := []   -- validate: tokens `k` such that the record was live = own(inst, k) at some moment of the call
   flagAtCall : Bool := false
   demotesAtCall : Nat := 0
+  superseded : Bool := false  -- stop: a Start of the same instance was called while this call was in progress
   deriving Repr, DecidableEq, Inhabited
 
 structure CtxW where
@@ -75,6 +76,8 @@ structure InstW where
   startedAt : Nat := 0
   candidateSince : Nat := 0     -- latest of: Start, last loss of leadership, healing of a partition
   stoppedSince : Option Nat := none   -- a stop returned ok at that time and no Start was called since
+  runToks : List Nat := []            -- tokens this instance put into store calls issued since its last Start
+  lastStaleWev : Nat := 0             -- latest delivery of a watch notification older than the record it describes
   stopCalledSince : Option Nat := none
   lastTo : Nat := 1             -- to-state of the last recorded transition (CANDIDATE right after Start)
   lastOwnTok : Nat := 0         -- token of this instance's latest successful write
@@ -108,6 +111,7 @@ structure World where
   line : Nat := 0
   insts : List InstW := []
   store : List (String × Rec) := []
+  tombs : List (String × Nat) := []     -- delete markers (the subject's last sequence)
   seq : Nat := 0
   ops : List PendingOp := []
   hist : List Mut := []          -- newest first
@@ -158,6 +162,10 @@ def mutate (w : World) (who : Nat) (kind : MutKind) (key : String) (exp : Nat) (
   let rev := if kind = .expire then w.seq else w.seq + 1
   let after := newVal.map fun v => ({ val := v, rev := rev, writer := who, wt := w.now } : Rec)
   let w1 := w.setKey key after
+  let w1 := { w1 with tombs := match kind with
+    | .delete | .extDelete => (key, rev) :: w1.tombs.filter (·.1 != key)
+    | .expire => w1.tombs
+    | _ => w1.tombs.filter (·.1 != key) }
   { w1 with seq := rev,
             hist := { t := w.now, who := who, kind := kind, key := key, exp := exp, before := before, after := after } :: w.hist,
             tokensSeen := (match newVal with | some v => valToks v | none => []) ++ w.tokensSeen }
@@ -168,9 +176,12 @@ def storeAnswer (w : World) (op : PendingOp) : Applied :=
   | .create => match w.live op.key with
     | some _ => .fail .exists_
     | none => .ok (w.seq + 1)
-  | .update => match w.live op.key with
-    | some r => if r.rev = op.exp then .ok (w.seq + 1) else .fail .wrongseq
-    | none => .fail .wrongseq
+  | .update =>
+    -- an Update must present the subject's last sequence: the live record's revision, else the delete marker's, else 0
+    let cur := match w.live op.key with
+      | some r => r.rev
+      | none => (w.tombs.lookup op.key).getD 0
+    if cur = op.exp then .ok (w.seq + 1) else .fail .wrongseq
   | .get => match w.live op.key with
     | some r => .ok r.rev
     | none => .fail .notfound
